@@ -131,7 +131,9 @@ class JSONSerialization(Serialization):
             schema = dispatch_method(p, safe=safe)
         else:
             schema = {'type': ptype.lower()}
-        return JSONNullable(schema) if p.allow_None else schema
+        # (None is also a valid state where it is the default although
+        # allow_None was not asked for, e.g. a Selector nothing is selected in)
+        return JSONNullable(schema) if (p.allow_None or p.default is None) else schema
 
     @classmethod
     def serialize_parameter_value(cls, pobj, pname):
